@@ -39,6 +39,10 @@ def configs(tier, seed):
   # (stored before a list changed, carbon's own metrics, re-injected relay buffers) is written like anything else
   for st in strategies[:2] if tier == 'quick' else strategies:
     cfgs.append(dict(name='%s/lists' % st, strategy=st, creates='inf', updates='inf', lists=True))
+  # rate limits on a clock that moves a little with every look at it: the time the bucket computes it still has to wait
+  # may already be over when it gets round to sleeping
+  for k, st in enumerate(strategies[2:4] if tier == 'quick' else strategies):
+    cfgs.append(dict(name='%s/c%s/u%s/jitter' % (st, 'inf', 2 + k), strategy=st, creates='inf', updates=2 + k, jitter=[0.02, 0.15, 0.4][k % 3]))
   return cfgs
 
 
@@ -84,6 +88,7 @@ def run_config(cfg, res):
     import carbon.service as service
     service.createBaseService(None, ns.settings)       # the daemon's own wiring of the lists
   world = cachesim.World(ns, trace_files=('cache.py', 'events.py', 'writer.py'))
+  world.vt.jitter = cfg.get('jitter', 0.0)
   r = gen.rng(cfg['seed'], 'C03', cfg['name'])
   n, k = (8, 2) if cfg['tier'] == 'quick' else (12, 3)
   label = cfg['strategy']
